@@ -98,6 +98,7 @@ double shape_pdf(int sh, double a, double b, double t)
 		}
 		case 3: return std::exp(-a * t);
 		case 4: return std::pow(t, a);
+		case 6: return (t > 0.4 && t < 0.6) ? 0.0 : 1.0;   // two plateaus separated by a gap: the cdf is flat in between
 		default: return 1.0;
 	}
 }
@@ -131,6 +132,7 @@ long double shape_cdf(int sh, double a, double b, double t)
 		case 2: return T - sinl(2 * M_PIl * T) / (2 * M_PIl);
 		case 3: return fabsl(A) < 1e-12L ? T : expm1l(-A * T) / expm1l(-A);
 		case 4: return powl(T, A + 1);
+		case 6: return T <= 0.4L ? T / 0.8L : T < 0.6L ? 0.5L : 0.5L + (T - 0.6L) / 0.8L;
 		default: return T;
 	}
 }
@@ -150,6 +152,28 @@ double shape_mean_var(int sh, double a, double b, double& var)
 	m2 /= z;
 	var = (double) (m2 - m1 * m1);
 	return (double) m1;
+}
+// mean, variance and fourth central moment of the normalised shape on [0,1] (numeric, 20000-point midpoint rule)
+void shape_moments(int sh, double a, double b, long double& mean, long double& var, long double& mu4)
+{
+	long double z = 0, m1 = 0;
+	const int NQ = 20000;
+	for(int i = 0; i < NQ; i++)
+	{
+		double t	  = (i + 0.5) / NQ;
+		long double w = shape_pdf(sh, a, b, t);
+		z += w;
+		m1 += w * t;
+	}
+	mean = m1 / z;
+	var = mu4 = 0;
+	for(int i = 0; i < NQ; i++)
+	{
+		double t	  = (i + 0.5) / NQ;
+		long double w = shape_pdf(sh, a, b, t) / z, d = t - mean;
+		var += w * d * d;
+		mu4 += w * d * d * d * d;
+	}
 }
 long double Phi(long double z) { return 0.5L * erfcl(-z / sqrtl(2.0L)); }
 
@@ -446,6 +470,27 @@ struct Exec
 			ctx.violate(std::string("C18:law:") + KINDS[s.kind], fmt("%s: sup|F_n-F| = %.5f exceeds the DKW bound %.5f (n=%zu, level 1e-12, model slack %.2g)", what, D, bound, n, std::fabs(delta_model)) + "; " + describe(s));
 	}
 
+	// mean and variance of a pool against the target's moments, 7.5 standard errors (about 1e-13 two-sided per test)
+	void moments(const Spec& s, const char* what, const std::vector<double>& xs, long double mean, long double var, long double mu4)
+	{
+		size_t n = xs.size();
+		if(n < 10000 || !(var > 0))
+			return;
+		long double m = 0, v = 0;
+		for(double x : xs)
+			m += x;
+		m /= n;
+		for(double x : xs)
+			v += ((long double) x - m) * ((long double) x - m);
+		v /= (n - 1);
+		double zm = (double) (fabsl(m - mean) / sqrtl(var / n));
+		double zv = (double) (fabsl(v - var) / sqrtl(std::max(mu4 - var * var, 1e-300L) / n));
+		ctx.metric_max(M_MOMENT, std::max(zm, zv) / 7.5);
+		ctx.log.f64((double) m);
+		if(zm > 7.5 || zv > 7.5)
+			ctx.violate(std::string("C18:law-moments:") + KINDS[s.kind], fmt("%s: sample mean %.10Lg (target %.10Lg, %.1f standard errors), sample variance %.10Lg (target %.10Lg, %.1f standard errors), n=%zu", what, m, mean, zm, v, var, zv, n) + "; " + describe(s));
+	}
+
 	void exec_law(const Op& o)
 	{
 		// o.i: n, gap, intruder-kind..., then the pooled sampler as a nested op text in o.s
@@ -501,9 +546,15 @@ struct Exec
 		{
 			case 0:
 				dkw(s, "Sample_Uniform", xs, [&](double x) { return (long double) ((x - p[0]) / (p[1] - p[0])); }, 0.0);
+				{
+					long double w = (long double) p[1] - p[0];
+					moments(s, "Sample_Uniform", xs, p[0] + w / 2, w * w / 12, w * w * w * w / 80);
+				}
 				break;
 			case 1:
 				dkw(s, "Sample_Gauss", xs, [&](double x) { return Phi(((long double) x - p[0]) / p[1]); }, 6e-5);
+				// (Inv_Erf's 1e-4 root tolerance moves each draw by at most 1.5e-4 sigma: far below 7.5 standard errors of the mean for n <= 4e5)
+				moments(s, "Sample_Gauss", xs, p[0], (long double) p[1] * p[1], 3.0L * p[1] * p[1] * p[1] * p[1]);
 				break;
 			case 2:
 			{
@@ -536,12 +587,22 @@ struct Exec
 			{
 				int sh = s.family;
 				dkw(s, "Inverse_Transform_Sampling", xs, [&](double x) { return shape_cdf(sh, p[0], p[1], (x - p[2]) / (p[3] - p[2])); }, 1e-9);
+				{
+					long double mean, var, mu4, w = (long double) p[3] - p[2];
+					shape_moments(sh, p[0], p[1], mean, var, mu4);
+					moments(s, "Inverse_Transform_Sampling", xs, p[2] + w * mean, w * w * var, w * w * w * w * mu4);
+				}
 				break;
 			}
 			case 4:
 			{
 				int sh = s.family;
 				dkw(s, "Rejection_Sampling", xs, [&](double x) { return shape_cdf(sh, p[0], p[1], (x - p[2]) / (p[3] - p[2])); }, 0.0);
+				{
+					long double mean, var, mu4, w = (long double) p[3] - p[2];
+					shape_moments(sh, p[0], p[1], mean, var, mu4);
+					moments(s, "Rejection_Sampling", xs, p[2] + w * mean, w * w * var, w * w * w * w * mu4);
+				}
 				break;
 			}
 			case 5:
@@ -743,7 +804,7 @@ struct Gen
 			}
 			case 3:
 			{
-				s.family = (int) r.pick(std::vector<long long>{0, 1, 2, 3, 4, 5});
+				s.family = (int) r.pick(std::vector<long long>{0, 1, 2, 3, 4, 5, 6});
 				double a, b;
 				shape_params(s.family, a, b);
 				s.p = {a, b, off, off + w};
@@ -751,7 +812,7 @@ struct Gen
 			}
 			case 4:
 			{
-				s.family = (int) r.pick(std::vector<long long>{0, 1, 2, 5});
+				s.family = (int) r.pick(std::vector<long long>{0, 1, 2, 5, 6});
 				double a, b;
 				shape_params(s.family, a, b);
 				double factor = r.pick(std::vector<double>{1.0, 1.0, 1.0001, 1.5, 2.0, 5.0, 20.0});
@@ -916,7 +977,7 @@ struct SamplersEngine : Engine
 {
 	const char* name() const override { return "samplers"; }
 	std::vector<std::string> probe_names() const override { return std::vector<std::string>(PROBE_NAMES, PROBE_NAMES + P_NPROBES); }
-	std::vector<std::string> metric_names() const override { return {"worst_KS_distance_over_DKW_bound", "worst_poisson_moment_z_over_7"}; }
+	std::vector<std::string> metric_names() const override { return {"worst_KS_distance_over_DKW_bound", "worst_moment_z_over_allowed"}; }
 	int default_runs(const Opts& o) const override { return o.tier == "thorough" ? 4000 : 400; }
 	Plan generate(uint64_t seed, const Opts& o) override { return Gen(seed, o).generate(); }
 	void execute(const Plan& p, Ctx& ctx) override { Exec(ctx, p).run(); }
